@@ -1382,9 +1382,11 @@ func (in *Interp) method(n *Node) Val {
 			}
 			var nums []float64
 			allInt := true
+			var isum int64
 			for _, e := range arr.L {
 				switch x := e.(type) {
 				case int64:
+					isum += x
 					nums = append(nums, float64(x))
 				case float64:
 					nums = append(nums, x)
@@ -1402,6 +1404,9 @@ func (in *Interp) method(n *Node) Val {
 					break
 				}
 				s += v
+			}
+			if allInt && n.S == "sum" {
+				return isum // integers are added as integers (wrap-around like '+')
 			}
 			if allInt {
 				return int64(s)
